@@ -734,6 +734,18 @@ class SimInstance:
                 self.boot()
             return
         w = self.world
+        try:
+            self._step_alive()
+        except Exception as exc:
+            from vlib.diag import exception_signature
+            sig, detail = exception_signature(exc)
+            if sig.endswith('@?'):
+                raise
+            # production: the exception escapes into the supervisord main loop (supervisord crashes)
+            w.obs('proxy_exception', self.idx, sig, detail)
+
+    def _step_alive(self) -> None:
+        w = self.world
         with w.as_current(self):
             if self.options.mood < SupervisorStates.RUNNING and not self.stopping:
                 self.begin_stop()
@@ -1029,7 +1041,15 @@ class World:
             self.obs('dropped', inst.idx, proxy.dest_identifier, _msg_kind(message[0], message[1][1]))
             return
         with self.as_current(inst):
-            proxy.process_event(message)
+            try:
+                proxy.process_event(message)
+            except Exception as exc:
+                # production: the proxy thread dies with an uncaught exception (C16)
+                from vlib.diag import exception_signature
+                sig, detail = exception_signature(exc)
+                if sig.endswith('@?'):
+                    raise
+                self.obs('proxy_exception', inst.idx, sig, detail)
 
     def deliver_all(self, hold=(), order_key=None, limit: int = 5000) -> int:
         """Serve every queue not in ``hold`` until they are empty. ``order_key`` maps (owner idx, dest identifier)
